@@ -531,7 +531,7 @@ func c35Check(c c35Case, o c35Obs) (probs []c35Problem, reasked, secondChance bo
 // ---- generator ----
 
 func c35Gen(t *rapid.T) c35Case {
-	n := rapid.OneOf(rapid.IntRange(1, 5), rapid.IntRange(1, 40)).Draw(t, "heights")
+	n := rapid.OneOf(rapid.IntRange(1, 5), rapid.IntRange(1, 40), rapid.IntRange(10, 40)).Draw(t, "heights")
 	k := rapid.IntRange(2, c35MaxPeers).Draw(t, "peers")
 	idx := make([]int, k)
 	for i := range idx {
